@@ -17,6 +17,9 @@ def run(R, ctx):
                      "each per-key history is checked for linearizability (porcupine), every goroutine's events for the lockset discipline, the keyspace "
                      "counter and KEYS/EXISTS at quiescence; run again under the Go race detector. Scenario bigread: containers of 2 000-4 000 elements (sorted set, hash, set, list) that only grow while 5 readers list them "
                      "through every listing command; each listing must contain every element acknowledged before its invocation, nothing not yet sent at its return, no element twice, in the family's order. "
+                     "Scenario addrem (hash, set, sorted set): an adder and a remover work through the same elements, the remover only after the addition was acknowledged, the key ceasing to exist again and again; "
+                     "every removal answers 1 and at quiescence the container is exactly the acknowledged additions minus removals. keysstable: 24 keys that are only ever overwritten (SET, SET GET, APPEND, SETRANGE, MSET) while "
+                     "other keys come and go; every KEYS reply lists all 24. streamtrim: 4 producers XADD MAXLEN n * at the same moment; exactly the n greatest reported IDs remain. "
                      "A history is non-trivial with >= 2 goroutines.")
 
 
